@@ -78,6 +78,81 @@ theorem runForest_fresh : ∀ (ts : List Tree) (w : World), Fresh w → Fresh (r
     exact runForest_fresh ts _ (runTree_fresh t w hw)
 end
 
+mutual
+/-- Failing or not: no callback is invoked more often than it occurs in the tree. -/
+theorem runTreeE_count_le : ∀ (t : TreeE) (w : World) (c : Nat),
+    (runTreeE t w).2.count c ≤ w.count c + (idsE t).count c
+  | .node cb types beh ch, w, c => by
+    unfold runTreeE
+    cases hcall : beh.callable
+    · simp [World.count]
+    · simp only [if_true]
+      have h := runForestE_count_le ch
+        { events := ⟨cb, freshIds w.fresh types.length, types⟩ :: w.events, fresh := w.fresh + types.length } c
+      have hc : World.count ⟨⟨cb, freshIds w.fresh types.length, types⟩ :: w.events, w.fresh + types.length⟩ c
+          = w.count c + (if cb = c then 1 else 0) := by
+        rw [count_cons]; simp
+      rw [hc] at h
+      generalize runForestE ch _ = r at h
+      obtain ⟨e, w2⟩ := r
+      have hb : (if cb = c then 1 else 0) + (idsFE ch).count c = (idsE (.node cb types beh ch)).count c := by
+        by_cases hcc : cb = c <;> simp [idsE, hcc] <;> omega
+      cases e with
+      | some err => simp only at h ⊢; omega
+      | none =>
+        simp only at h ⊢
+        cases beh.result <;> simp only <;> omega
+theorem runForestE_count_le : ∀ (ts : List TreeE) (w : World) (c : Nat),
+    (runForestE ts w).2.count c ≤ w.count c + (idsFE ts).count c
+  | [], w, c => by simp [runForestE, idsFE]
+  | t :: ts, w, c => by
+    unfold runForestE
+    have h1 := runTreeE_count_le t w c
+    generalize runTreeE t w = r at h1
+    obtain ⟨e, w1⟩ := r
+    cases e with
+    | some err => simp only at h1 ⊢; simp [idsFE, List.count_append]; omega
+    | none =>
+      simp only at h1 ⊢
+      have h2 := runForestE_count_le ts w1 c
+      simp [idsFE, List.count_append]; omega
+end
+
+mutual
+/-- **Refinement.** A nested call that does not fail is exactly the successful model on the erased tree. -/
+theorem runTreeE_ok : ∀ (t : TreeE) (w : World), (runTreeE t w).1 = none → (runTreeE t w).2 = runTree (erase t) w
+  | .node cb types beh ch, w => by
+    unfold runTreeE
+    cases hcall : beh.callable
+    · simp
+    · simp only [if_true]
+      have h := runForestE_ok ch
+        { events := ⟨cb, freshIds w.fresh types.length, types⟩ :: w.events, fresh := w.fresh + types.length }
+      generalize runForestE ch _ = r at h
+      obtain ⟨e, w2⟩ := r
+      cases e with
+      | some err => simp
+      | none =>
+        simp only at h ⊢
+        cases beh.result with
+        | ok n => intro _; simp [erase, runTree, h trivial]
+        | error err => simp
+theorem runForestE_ok : ∀ (ts : List TreeE) (w : World),
+    (runForestE ts w).1 = none → (runForestE ts w).2 = runForest (eraseF ts) w
+  | [], w => by simp [runForestE, eraseF, runForest]
+  | t :: ts, w => by
+    unfold runForestE
+    have h1 := runTreeE_ok t w
+    generalize runTreeE t w = r at h1
+    obtain ⟨e, w1⟩ := r
+    cases e with
+    | some err => simp
+    | none =>
+      simp only at h1 ⊢
+      intro h
+      rw [runForestE_ok ts w1 h, eraseF, runForest, ← h1 trivial]
+end
+
 /-- The leaves a flat constructor call amounts to: one per `subgraph(…)` call whose type expression
     evaluates and whose callback returns Vars. -/
 def leavesOf (env : Env) (cbs : Callbacks) : List (String × ListExpr) → List Tree
